@@ -625,6 +625,29 @@ func runHubCaseRaw(c *h.Ctx, r *h.Report, o *gen.Oracle, cs hubCase, uuidGen *co
 				} else {
 					if v, ok := lc.w.Header()["Last-Event-Id"]; ok {
 						leid = h.Hex(v[0])
+						// carrier precedence, on the implementation alone: the id the hub negotiates about is the header's when
+						// it is not empty, else the lastEventID parameter's, else (version-7 compatibility only) the first
+						// legacy Last-Event-ID parameter. When that id is stored, the answer names it.
+						want := op.LeidH
+						if want == "" {
+							want = op.LeidQ
+						}
+						if want == "" && cs.Cfg.Compat7 && len(op.LeidL) > 0 {
+							want = op.LeidL[0]
+						}
+						if _, isBolt := hr.f.tr.(*mercure.BoltTransport); isBolt && want != "" && want != "earliest" {
+							stored := false
+							for _, id := range storedBefore {
+								stored = stored || id == want
+							}
+							if stored && v[0] != want {
+								for _, k := range []string{"C08", "C07"} {
+									hr.extra = append(hr.extra, h.Violation{Key: k + ":negotiated-about-another-carrier-than-the-protocol's",
+										What:   fmt.Sprintf("Last-Event-ID header %q, lastEventID parameter %q, legacy parameter %q (compat7=%v): the protocol's carrier gives %q, which is stored, but the hub answered %q", op.LeidH, op.LeidQ, op.LeidL, cs.Cfg.Compat7, want, v[0]),
+										Replay: map[string]any{"family": "hub", "case": cs}})
+								}
+							}
+						}
 						if _, isBolt := hr.f.tr.(*mercure.BoltTransport); isBolt && len(op.Topics) == 1 && (op.Topics[0] == "*" || cs.ExpectAll) && cs.AllPublic && !(cs.ExpectAll && cs.Cfg.Subscriptions) {
 							req := op.LeidH
 							if req == "" {
